@@ -1,6 +1,6 @@
 ------------------------------ MODULE BoxLaws ------------------------------
 (* Formula level == point-set level (Box.tla), model-checked for every pair
-   of boxes (a, b) with corners in Lo..Hi in N dimensions - the input space is
+   of boxes (a, b) with corners in -Rad..Rad in N dimensions - the input space is
    the set of initial states, every law is an invariant, a failing case is a
    one-state counterexample.  Points range over the cube Lo-1..Hi+1, shrink /
    stretch amounts over 0..2.
@@ -9,7 +9,9 @@
    vacuity guard of the k-th law (the check requires TLC to refute it). *)
 EXTENDS Box
 
-CONSTANTS N, Lo, Hi, Bug
+CONSTANTS N, Rad, Bug
+Lo == -Rad
+Hi == Rad
 
 VARIABLES a, b
 Coord == [1..N -> Lo..Hi]
@@ -23,10 +25,10 @@ Plus(p, v) == [i \in 1..N |-> p[i] + v[i]]
 Minus(p, v) == [i \in 1..N |-> p[i] - v[i]]
 
 (* the formulas under test, with the bug switch *)
-NE(x) == IF Bug = 1 THEN \A i \in 1..N : x.pos[i] <= x.max[i] ELSE NonEmpty(x)
-CP(x, p) == IF Bug = 2 THEN \A i \in 1..N : x.pos[i] <= p[i] /\ p[i] <= x.max[i] ELSE FContainsPoint(x, p)
-IS(x, y) == IF Bug = 3 THEN \A i \in 1..N : y.pos[i] <= x.max[i] /\ x.pos[i] <= y.max[i] ELSE FIntersects(x, y)
-IN(x, y) ==
+tNE(x) == IF Bug = 1 THEN \A i \in 1..N : x.pos[i] <= x.max[i] ELSE NonEmpty(x)
+tCP(x, p) == IF Bug = 2 THEN \A i \in 1..N : x.pos[i] <= p[i] /\ p[i] <= x.max[i] ELSE FContainsPoint(x, p)
+tIS(x, y) == IF Bug = 3 THEN \A i \in 1..N : y.pos[i] <= x.max[i] /\ x.pos[i] <= y.max[i] ELSE FIntersects(x, y)
+tIN(x, y) ==
   IF Bug = 4
   THEN (IF FIntersects(x, y)
         THEN Box([i \in 1..N |-> IF i = 1 THEN Min2(x.pos[i], y.pos[i]) ELSE Max2(x.pos[i], y.pos[i])],
@@ -34,56 +36,56 @@ IN(x, y) ==
         ELSE Null(N))
   ELSE IF Bug = 5 THEN Box([i \in 1..N |-> Max2(x.pos[i], y.pos[i])], [i \in 1..N |-> Min2(x.max[i], y.max[i])])  \* no null box
   ELSE FIntersection(x, y)
-CO(o, i) == IF Bug = 6 THEN \A k \in 1..N : i.pos[k] > o.pos[k] /\ i.max[k] <= o.max[k] ELSE FContains(o, i)
-EX(x, y) == IF Bug = 7 THEN Box([i \in 1..N |-> Max2(x.pos[i], y.pos[i])], [i \in 1..N |-> Max2(x.max[i], y.max[i])]) ELSE FExtend(x, y)
-EP(x, p) == IF Bug = 8 THEN Box(x.pos, [i \in 1..N |-> Max2(p[i], x.max[i])]) ELSE FExtendPoint(x, p)
-CN(x) == IF Bug = 9 THEN {[i \in 1..N |-> IF i \in s THEN x.max[i] - 1 ELSE x.pos[i]] : s \in SUBSET (1..N)} ELSE Corners(x)
-SH(x, v) == IF Bug = 10 THEN Box(Plus(x.pos, v), x.max) ELSE Shrink(x, v)
-ST(x, v) == IF Bug = 10 THEN Box(Minus(x.pos, v), x.max) ELSE Stretch(x, v)
-CE(x) == IF Bug = 11 THEN [i \in 1..N |-> x.pos[i] + (x.max[i] - x.pos[i] + 1) \div 2] ELSE Center(x)
-ID(a1, a2, b1, b2) == IF Bug = 12 THEN {Max2(b1 - a2, a1 - b2) + 1} ELSE IntervalDistances(a1, a2, b1, b2)
+tCO(o, i) == IF Bug = 6 THEN \A k \in 1..N : i.pos[k] > o.pos[k] /\ i.max[k] <= o.max[k] ELSE FContains(o, i)
+tEX(x, y) == IF Bug = 7 THEN Box([i \in 1..N |-> Max2(x.pos[i], y.pos[i])], [i \in 1..N |-> Max2(x.max[i], y.max[i])]) ELSE FExtend(x, y)
+tEP(x, p) == IF Bug = 8 THEN Box(x.pos, [i \in 1..N |-> Max2(p[i], x.max[i])]) ELSE FExtendPoint(x, p)
+tCN(x) == IF Bug = 9 THEN {[i \in 1..N |-> IF i \in s THEN x.max[i] - 1 ELSE x.pos[i]] : s \in SUBSET (1..N)} ELSE Corners(x)
+tSH(x, v) == IF Bug = 10 THEN Box(Plus(x.pos, v), x.max) ELSE Shrink(x, v)
+tST(x, v) == IF Bug = 10 THEN Box(Minus(x.pos, v), x.max) ELSE Stretch(x, v)
+tCE(x) == IF Bug = 11 THEN [i \in 1..N |-> x.pos[i] + (x.max[i] - x.pos[i] + 1) \div 2] ELSE Center(x)
+tID(a1, a2, b1, b2) == IF Bug = 12 THEN {Max2(b1 - a2, a1 - b2) + 1} ELSE IntervalDistances(a1, a2, b1, b2)
 
 PtsLaw ==
-  /\ NE(a) <=> Pts(a) # {}
+  /\ tNE(a) <=> Pts(a) # {}
   /\ NonEmpty(a) => (a = BoundingBox(Pts(a)) /\ Cardinality(Pts(a)) = ProdTo(Size(a), N))
-ContainsPointLaw == \A p \in Points : CP(a, p) <=> SContainsPoint(a, p)
-IntersectsLaw == (NonEmpty(a) /\ NonEmpty(b)) => (IS(a, b) <=> SIntersects(a, b))
-IntersectionLaw == SIsIntersection(IN(a, b), a, b)
-ContainsLaw == NonEmpty(b) => (CO(a, b) <=> SContains(a, b))
+ContainsPointLaw == \A p \in Points : tCP(a, p) <=> SContainsPoint(a, p)
+IntersectsLaw == (NonEmpty(a) /\ NonEmpty(b)) => (tIS(a, b) <=> SIntersects(a, b))
+IntersectionLaw == SIsIntersection(tIN(a, b), a, b)
+ContainsLaw == NonEmpty(b) => (tCO(a, b) <=> SContains(a, b))
 ExtendLaw ==
   (NonEmpty(a) /\ NonEmpty(b)) =>
-    /\ EX(a, b) = SExtend(a, b)
-    /\ Pts(a) \cup Pts(b) \subseteq Pts(EX(a, b))
+    /\ tEX(a, b) = SExtend(a, b)
+    /\ Pts(a) \cup Pts(b) \subseteq Pts(tEX(a, b))
 ExtendPointLaw ==
   NonEmpty(a) => \A p \in Points :
-    /\ p \in Pts(a) => EP(a, p) = a
-    /\ Pts(a) \subseteq Pts(EP(a, p))
-    /\ \A i \in 1..N : EP(a, p).pos[i] <= p[i] /\ p[i] <= EP(a, p).max[i]
-    /\ EP(a, p) = FExtend(a, Box(p, p))
+    /\ p \in Pts(a) => tEP(a, p) = a
+    /\ Pts(a) \subseteq Pts(tEP(a, p))
+    /\ \A i \in 1..N : tEP(a, p).pos[i] <= p[i] /\ p[i] <= tEP(a, p).max[i]
+    /\ tEP(a, p) = FExtend(a, Box(p, p))
 CornerLaw ==
   NonEmpty(a) =>
-    /\ Cardinality(CN(a)) = 2 ^ N
-    /\ BoundingBox({[i \in 1..N |-> IF c[i] = a.max[i] THEN c[i] - 1 ELSE c[i]] : c \in CN(a)}) = a
+    /\ Cardinality(tCN(a)) = 2 ^ N
+    /\ BoundingBox({[i \in 1..N |-> IF c[i] = a.max[i] THEN c[i] - 1 ELSE c[i]] : c \in tCN(a)}) = a
 ShrinkStretchLaw ==
   \A v \in Amounts :
-    /\ Pts(SH(a, v)) = {p \in Pts(a) : Minus(p, v) \in Pts(a) /\ Plus(p, v) \in Pts(a)}
-    /\ NonEmpty(a) => Pts(ST(a, v)) = {Plus(p, d) : p \in Pts(a), d \in [1..N -> -2..2]} \cap
-                                      {p \in Pts(ST(a, v)) : \E q \in Pts(a) : \A i \in 1..N : AbsI(p[i] - q[i]) <= v[i]}
+    /\ Pts(tSH(a, v)) = {p \in Pts(a) : Minus(p, v) \in Pts(a) /\ Plus(p, v) \in Pts(a)}
+    /\ NonEmpty(a) => Pts(tST(a, v)) = {Plus(p, d) : p \in Pts(a), d \in [1..N -> -2..2]} \cap
+                                      {p \in Pts(tST(a, v)) : \E q \in Pts(a) : \A i \in 1..N : AbsI(p[i] - q[i]) <= v[i]}
     /\ NonEmpty(a) => \A p \in Pts(a) : \A d \in [1..N -> -2..2] :
-                        (\A i \in 1..N : AbsI(d[i]) <= v[i]) => Plus(p, d) \in Pts(ST(a, v))
-    /\ SH(ST(a, v), v) = a
+                        (\A i \in 1..N : AbsI(d[i]) <= v[i]) => Plus(p, d) \in Pts(tST(a, v))
+    /\ tSH(tST(a, v), v) = a
 CenterLaw ==
   NonEmpty(a) =>
-    /\ CE(a) \in Pts(a)
-    /\ \A i \in 1..N : LET below == CE(a)[i] - a.pos[i]
-                           above == a.max[i] - 1 - CE(a)[i]
+    /\ tCE(a) \in Pts(a)
+    /\ \A i \in 1..N : LET below == tCE(a)[i] - a.pos[i]
+                           above == a.max[i] - 1 - tCE(a)[i]
                        IN below - above \in {0, 1}
 DistanceLaw ==
   (NonEmpty(a) /\ NonEmpty(b)) => \A i \in 1..N :
-    LET d == ID(a.pos[i], a.max[i], b.pos[i], b.max[i])
+    LET d == tID(a.pos[i], a.max[i], b.pos[i], b.max[i])
         A == a.pos[i]..(a.max[i] - 1)
         B == b.pos[i]..(b.max[i] - 1)
-    IN /\ d = ID(b.pos[i], b.max[i], a.pos[i], a.max[i])
+    IN /\ d = tID(b.pos[i], b.max[i], a.pos[i], a.max[i])
        /\ (A \cap B = {}) <=> \A x \in d : x >= 0
        /\ (A \cap B = {}) => d = {Cardinality({x \in Lo..Hi : (\A y \in A : y < x) /\ (\A y \in B : x < y)}
                                                 \cup {x \in Lo..Hi : (\A y \in B : y < x) /\ (\A y \in A : x < y)})}
